@@ -118,7 +118,10 @@ impl Scenario for C17Encodings {
         let nenc = 1 + cx.tape.draw(3);
         cx.event_lazy(&format!("document ({} bytes, features {}, fragment={fragment})", text.len(), feats_string(&feats)), || crate::runner::clip(&text, 1500));
 
+        cx.tape.begin_group();
         for _ in 0..nenc {
+            cx.tape.end_group();
+            cx.tape.begin_group();
             let (enc, bom, label) = *cx.tape.pick(&ENCODINGS);
             // Latin-1: the reference is the text restricted to Latin-1, and the bytes must be invalid UTF-8
             let (bytes, reference_text) = if enc == Enc::Latin1 {
